@@ -249,7 +249,7 @@ def _correspondence(ctx):
     ctx.run_cases(OPS["path_parse"], ps)
     ctx.run_cases(OPS["path_relative_to"], rels)
     ctx.run_cases(OPS["path_join"], joins)
-    stored, reloc = _collection_cases(ctx, ctx.rng, ctx.budget(40, 250))
+    stored, reloc = _collection_cases(ctx, ctx.rng, ctx.budget(40, 800))
     ctx.run_cases(OPS["stored"], _wf(ctx, stored))
     ctx.run_cases(OPS["relocate"], _wf(ctx, reloc))
     ctx.run_cases(OPS["stored"], _wf(ctx, _mixed_outside(random.Random("C18-mixed"))))
